@@ -13,6 +13,11 @@ var defResultRe = regexp.MustCompile(`\((?:define-fun-rec|define-fun|declare-fun
 
 var collMethodRe = regexp.MustCompile(`^\(cosmossdk\.io/collections\.(Item|Map|KeySet|Sequence)\)\.([A-Za-z]+)$`)
 
+// summaryRegistry: summaries added by the per-area files (summ_*.go) in their init functions.
+// key: SSA function name with type arguments stripped (see stripGenerics), "ctx.<Method>" for context
+// methods and "invoke:<iface path>.<Method>" for interface calls.
+var summaryRegistry = map[string]func(x *Exec, s *State, args []*Val, resT types.Type) (*Val, bool){}
+
 var errType = types.Universe.Lookup("error").Type()
 
 // summary applies a built-in summary of a dependency (or hashing helper) function.
@@ -23,6 +28,11 @@ func (x *Exec) summary(s *State, name string, fn *ssa.Function, args []*Val, res
 		x.c.note("summary: " + name)
 		cont(s, v)
 		return true
+	}
+	if f, ok := summaryRegistry[name]; ok {
+		if v, handled := f(x, s, args, resT); handled {
+			return ret(v)
+		}
 	}
 	if m := collMethodRe.FindStringSubmatch(name); m != nil {
 		if v, ok := x.collCall(s, m[2], args, resT); ok {
